@@ -31,7 +31,12 @@ class Failure:
 
 HARNESS_ENV = {}       # extra environment of the harness process, from the check module (HARNESS_ENV)
 
-def run_harness(nixdrv, lines, workdir, sync=False, timeout=900, asan=False):
+# memcheck on the PLAIN build: addressability errors only (reads / writes outside allocated blocks, bad frees) — also inside
+# libraries that are not instrumented, which the sanitizer build cannot see into (libhdf5); stop at the first error
+VALGRIND = ['valgrind', '-q', '--error-exitcode=97', '--exit-on-first-error=yes', '--undef-value-errors=no', '--leak-check=no',
+            '--num-callers=25']
+
+def run_harness(nixdrv, lines, workdir, sync=False, timeout=900, asan=False, prefix=None):
     """returns (returncode, stdout lines, stderr text)"""
     os.makedirs(workdir, exist_ok=True)
     ops = os.path.join(workdir, 'ops.txt')
@@ -47,7 +52,7 @@ def run_harness(nixdrv, lines, workdir, sync=False, timeout=900, asan=False):
     shutil.rmtree(scratch, ignore_errors=True)
     os.makedirs(scratch)
     try:
-        p = subprocess.run([nixdrv, ops, scratch], stdout=subprocess.PIPE, stderr=subprocess.PIPE, env=env,
+        p = subprocess.run((prefix or []) + [nixdrv, ops, scratch], stdout=subprocess.PIPE, stderr=subprocess.PIPE, env=env,
                            timeout=timeout)
         rc, out, err = p.returncode, p.stdout, p.stderr
     except subprocess.TimeoutExpired as e:
@@ -68,6 +73,18 @@ def execute(ctx, cases):
     Returns (failures, stats).  Each case starts with an implicit harness `reset`.
     Cases with meta['no_driver'] (token-level abuse programs: a model replay is not meaningful) run on the harness only and
     are judged for survival alone."""
+    vg = [c for c in cases if c.meta.get('valgrind')]
+    if vg and len(vg) < len(cases):
+        f1, s1 = execute(ctx, [c for c in cases if not c.meta.get('valgrind')])
+        f2, s2 = execute(ctx, vg)
+        for k in ('lines', 'fatal', 'cases', 'diff', 'rel'):
+            s1[k] += s2[k]
+        for k, v in s2['ok_tags'].items():
+            s1['ok_tags'][k] = s1['ok_tags'].get(k, 0) + v
+        return f1 + f2, s1
+    if vg:
+        # cases for memcheck: the plain build under valgrind, harness only, judged for survival
+        ctx = dict(ctx, nixdrv=ctx.get('nixdrv_plain', ctx['nixdrv']), prefix=VALGRIND, sync=True)
     nd = [c for c in cases if c.meta.get('no_driver')]
     if nd and len(nd) < len(cases):
         f1, s1 = execute(ctx, [c for c in cases if not c.meta.get('no_driver')])
@@ -77,7 +94,7 @@ def execute(ctx, cases):
         for k, v in s2['ok_tags'].items():
             s1['ok_tags'][k] = s1['ok_tags'].get(k, 0) + v
         return f1 + f2, s1
-    harness_only = bool(nd)
+    harness_only = bool(nd) or bool(vg)
     failures = []
     stats = {'lines': 0, 'ok_tags': {}, 'fatal': 0, 'nontrivial_keys': set(), 'cases': 0, 'diff': 0, 'rel': 0}
     rest = list(cases)
@@ -100,14 +117,14 @@ def execute(ctx, cases):
             for li, l in enumerate(c.lines):
                 lines.append(l); owner.append((ci, li))
         rc, out, err = run_harness(ctx['nixdrv'], lines, ctx['rundir'], sync=ctx.get('sync', False),
-                                   timeout=ctx.get('harness_timeout', 1800))
+                                   timeout=ctx.get('harness_timeout', 1800), prefix=ctx.get('prefix'))
         trace = [l for l in out if l and not l.startswith('@ ')]
         done = len(trace)
         crashed = rc != 0
         if crashed and not ctx.get('sync', False):
             # rerun synchronously to locate the culprit
             rc, out, err = run_harness(ctx['nixdrv'], lines, ctx['rundir'], sync=True,
-                                       timeout=ctx.get('harness_timeout', 1800))
+                                       timeout=ctx.get('harness_timeout', 1800), prefix=ctx.get('prefix'))
             trace = [l for l in out if l and not l.startswith('@ ')]
             done = len(trace)
             crashed = rc != 0
@@ -163,9 +180,9 @@ def execute(ctx, cases):
             stats['cases'] += len(pending)
     return failures, stats
 
-def case_fails_same(ctx, lines, want_kind, want_rule, want_tag):
+def case_fails_same(ctx, lines, want_kind, want_rule, want_tag, meta=None):
     """predicate for shrinking: does this op list still fail the same way?"""
-    c = Case(lines)
+    c = Case(lines, meta={k: v for k, v in (meta or {}).items() if k in ('valgrind', 'no_driver')})
     fs, _ = execute(ctx, [c])
     if any('PROTO-ERROR' in (f.line or '') for f in fs):
         return False          # the reduced trace is not a well-formed program any more
@@ -207,12 +224,12 @@ def shrink(ctx, f):
     if mod is not None and hasattr(mod, 'minimal'):
         # family-specific guess at the minimal reproducer (e.g. the axis declaration + the failing probe)
         cand = mod.minimal(f)
-        if cand and case_fails_same(ctx, cand, f.kind, f.rule(), f.tag()):
+        if cand and case_fails_same(ctx, cand, f.kind, f.rule(), f.tag(), f.case.meta):
             return cand
     # cut after the failing line first
     lines = f.case.lines[:f.line_no + 1]
     rule, tag, kind = f.rule(), f.tag(), f.kind
-    pred = lambda ls: case_fails_same(ctx, ls, kind, rule, tag)
+    pred = lambda ls: case_fails_same(ctx, ls, kind, rule, tag, f.case.meta)
     if not pred(lines):
         return f.case.lines
     return ddmin(ctx, lines, pred)
@@ -237,12 +254,18 @@ def write_replay(pid, f, lines, ctx, note):
         for vl in (f.verdict or '').split('\n')[:30]:
             o.write('# verdict: %s\n' % vl)
         o.write('# replay: bin/check %s --replay %s\n' % (pid, os.path.relpath(p, VERIF)))
+        if f.case.meta.get('valgrind'):
+            o.write('# memcheck (plain build under valgrind: addressability errors, also inside libhdf5)\n')
         for l in lines:
             o.write(l + '\n')
     return p
 
 def read_replay(path):
     return [l.rstrip('\n') for l in open(path) if l.strip() and not l.startswith('#')]
+
+def replay_meta(path):
+    """a replay / corpus file that says `# memcheck` in its header runs on the plain build under valgrind"""
+    return {'valgrind': True} if any(l.startswith('# memcheck') for l in open(path)) else {}
 
 def main(mod, argv):
     import argparse
@@ -274,6 +297,9 @@ def main(mod, argv):
             tb = time.time()
             B.build_lib(flavour)
             ctx['nixdrv'] = B.build_harness(flavour)
+            if getattr(mod, 'NEEDS_PLAIN', False) and flavour != 'plain':
+                B.build_lib('plain')
+                ctx['nixdrv_plain'] = B.build_harness('plain')
             ok, msg = B.gen_tables()
             if not ok:
                 proof_problem = ('table extraction failed', msg)
@@ -297,7 +323,8 @@ def main(mod, argv):
     try:
         if a.replay:
             lines = read_replay(a.replay)
-            fs, st = execute(ctx, [Case(lines, 'replay')])
+            rc_ = Case(lines, 'replay'); rc_.meta.update(replay_meta(a.replay))
+            fs, st = execute(ctx, [rc_])
             for f in fs:
                 print('%s line %d: %s\n   %s' % (f.kind, f.line_no, f.line, f.verdict))
             if fs:
@@ -322,6 +349,7 @@ def main(mod, argv):
         cases = []
         for p in sorted(glob.glob(os.path.join(VERIF, 'corpus', pid, '*.trace'))):
             cases.append(Case(read_replay(p), 'corpus:' + os.path.basename(p)))
+            cases[-1].meta.update(replay_meta(p))
         cases.extend(mod.cases(tier, a.seed, rng))
         failures, stats = execute(ctx, cases)
         if hasattr(mod, 'relevant'):
